@@ -37,7 +37,10 @@ impl FromMeta for DeriveInputShapeSet {
         let mut new = DeriveInputShapeSet::default();
         for item in items {
             if let NestedMeta::Meta(Meta::Path(ref path)) = *item {
-                let ident = &path.segments.first().unwrap().ident;
+                // A shape word is a single identifier: `struct_named::x` is not `struct_named`.
+                let ident = path.get_ident().ok_or_else(|| {
+                    Error::unknown_value(&crate::util::path_to_string(path)).with_span(path)
+                })?;
                 let word = ident.to_string();
                 if word == "any" {
                     new.any = true;
@@ -173,7 +176,13 @@ impl FromMeta for DataShape {
 
         for item in items {
             if let NestedMeta::Meta(Meta::Path(ref path)) = *item {
-                errors.handle(new.set_word(&path.segments.first().unwrap().ident.to_string()));
+                // A shape word is a single identifier: `unit::x` is not `unit`.
+                errors.handle(match path.get_ident() {
+                    Some(ident) => new.set_word(&ident.to_string()),
+                    None => Err(
+                        Error::unknown_value(&crate::util::path_to_string(path)).with_span(path)
+                    ),
+                });
             } else {
                 errors.push(Error::unsupported_format("non-word").with_span(item));
             }
